@@ -4,7 +4,7 @@
    object-level theorem). *)
 From AP.Model Require Import Prelude Bytes Vocab Pred Url IriEq Nlv Json Text Equal Coll Dispatch Layout JsonTables JsonLeaf
      JsonEnc JsonTree JsonCheck JsonDec JsonNorm.
-From AP.Proofs Require Import NlvP TextP C01StrP C01TreeP C01ParseP.
+From AP.Proofs Require Import NlvP TextP C01StrP C01TreeP C01ParseP AsIriP.
 Local Open Scope nat_scope.
 
 Section Items.
@@ -199,7 +199,8 @@ Section Items.
   (* ---- the three getters on the tree of an item ---- *)
   Lemma as_iri_valid s : iri_ok s = true -> as_iri (Text.FStr (escape_quote s)) = Some (Some s).
   Proof.
-    intros H. destruct (iri_ok_facts s H) as [[u Hu] [Hdec _]]. unfold as_iri. rewrite Hdec, Hu. reflexivity.
+    intros H. destruct (iri_ok_facts s H) as [[u Hu] [Hdec _]].
+    pose proof (as_iri_of_plain (escape_quote s) u) as K. rewrite Hdec in K. exact (K Hu).   (* the model of asIRI extends the plain grammar *)
   Qed.
 
   (* JSONGetItem *)
